@@ -885,9 +885,24 @@ def do_bits(env, st, i):
     for b in bits:
         val |= 1 << b
     full = (1 << (8 * meta.width)) - 1
+    # the byte row the implementation builds from the bit list, against WideRow.bitvals_to_packed and the
+    # little-endian integer (the transform every wide-mask comparison of this harness goes through)
+    from healsparse.utils import _bitvals_to_packed_array
+    row = [int(x) for x in _bitvals_to_packed_array(bits, 8 * meta.width)]
+
+    def cmp_row(res, row=row, val=val):
+        mm = []
+        if res[0][0] != 1 or list(res[1]) != row:
+            mm.append(dict(step=i, what='byte row of the bit list %r vs the row model' % bits, layer='L1', impl=row,
+                           model=res[1] if len(res) > 1 else res))
+        elif res[2][0] != int.from_bytes(bytes(row), 'little') or res[2][0] != val:
+            mm.append(dict(step=i, what='little-endian integer of the row of %r is not the set of listed bits' % bits,
+                           layer='L0', impl=val, model=res[2]))
+        return mm
+    pairs = [([[49], [meta.width], bits], cmp_row)]
     if which == 'set':
-        return [([[2], [h], [hsops.OPCODE['or'], 0], pixels, [val, 1] * len(pixels)], expect_ok(i, 'set_bits'))]
-    return [([[2], [h], [hsops.OPCODE['and'], 0], pixels, [full & ~val, 1] * len(pixels)], expect_ok(i, 'clear_bits'))]
+        return pairs + [([[2], [h], [hsops.OPCODE['or'], 0], pixels, [val, 1] * len(pixels)], expect_ok(i, 'set_bits'))]
+    return pairs + [([[2], [h], [hsops.OPCODE['and'], 0], pixels, [full & ~val, 1] * len(pixels)], expect_ok(i, 'clear_bits'))]
 
 
 @step('chkbits')
